@@ -735,6 +735,14 @@ class Controller:
         advertiser.stop()
 
     def on_le_disconnected(self, connection: Connection, reason: int) -> None:
+        # The CISes carried by this ACL go away with it (and before it)
+        for cis_link in [
+            *self.central_cis_links.values(),
+            *self.peripheral_cis_links.values(),
+        ]:
+            if cis_link.acl_connection is connection:
+                self.on_le_cis_disconnected(cis_link.cig_id, cis_link.cis_id)
+
         # Send a disconnection complete event
         self.send_hci_packet(
             hci.HCI_Disconnection_Complete_Event(
